@@ -170,6 +170,19 @@ func CodecCatalogue() []*Request {
 	}, "Series", true))
 	// every codec feature on messages declared inside other messages (annotated, plain and field-less parents)
 	out = append(out, C14NestedCatalogue("quick")...)
+	// discriminated-oneof corners the round-trip proof (proofs/OneofFacts.v) had to exclude by side conditions
+	add(featureReq("cxoneofkeys", nil, []*Message{
+		M("Text", F("text", 1, "string"), F("lang", 2, "string")), M("Memo", F("memo", 1, "string")),
+		// flattened: the variant field is called like a field of its own message
+		M("FlatSame", F("id", 1, "string"), F("text", 2, "", Msg(q("cxoneofkeys", "Text")), InOneof("c")), F("note", 3, "", Msg(q("cxoneofkeys", "Memo")), InOneof("c"))).
+			WithOneofs(&Oneof{Name: "c", HasConfig: true, Discriminator: "kind", Flatten: true}),
+	}, "FlatSame"))
+	add(featureReq("cxoneofdisc", nil, []*Message{
+		M("Text", F("text", 1, "string"), F("lang", 2, "string")),
+		// a member whose JSON name is the discriminator of its own oneof
+		M("DiscSame", F("id", 1, "string"), F("kind", 2, "string", InOneof("c")), F("text", 3, "", Msg(q("cxoneofdisc", "Text")), InOneof("c"))).
+			WithOneofs(&Oneof{Name: "c", HasConfig: true, Discriminator: "kind"}),
+	}, "DiscSame"))
 	// root map whose values are wrappers of SCALAR / enum lists (combined form): nil inner lists, enums with a codec
 	{
 		st := &Enum{Name: "Tone", Values: []*EnumValue{{Name: "TONE_UNSPECIFIED", Number: 0}, {Name: "TONE_LOW", Number: 1, EnumValue: Str("low")}, {Name: "TONE_HIGH", Number: 2}}}
